@@ -312,7 +312,7 @@ func TestC15_Stores(t *testing.T) {
 
 // ---------------------------------------------------------------- C15 sketches
 
-var c15SketchKinds = []string{"add", "add", "add", "add", "burst", "merge", "decmerge", "decmerge", "copy", "encdec", "reweight", "clear"}
+var c15SketchKinds = []string{"add", "add", "add", "add", "burst", "merge", "decmerge", "decmerge", "deczeros", "copy", "encdec", "reweight", "clear"}
 
 func TestC15_Sketch(t *testing.T) {
 	rapid.Check(t, func(t *rapid.T) {
